@@ -251,7 +251,8 @@ def rule_ins(chk, w):
 
 
 def rule_call(chk, w):
-    jo = [g for g in w.fns.values() if g.p == ST + "insert::join_overlapping"]
+    # a nested fn of insert, or a module-level fn
+    jo = [g for g in w.fns.values() if g.p in (ST + "insert::join_overlapping", ST + "join_overlapping")]
     ins = w.by_p.get(ST + "insert", [])
     jn = w.by_p.get(ST + "join_nonoverlapping", [])
     if len(jo) != 1 or len(ins) != 1 or len(jn) != 1:
@@ -290,7 +291,7 @@ def rule_call(chk, w):
     nm = list(f.argnames or [])
     ci, ti, fi = nm.index("current"), nm.index("to_insert"), nm.index("force_rescans")
     seen = []
-    for bb, t in _calls(b, r"insert::join_overlapping$"):
+    for bb, t in _calls(b, r"::join_overlapping$"):
         l, r, i_ = [defuse.show(du.origin(a)) for a in t.args]
         seen.append((l, r, i_))
     want = sorted([("arg%d" % ti, "arg%d" % ci, "left(arg%d)" % fi), ("arg%d" % ci, "arg%d" % ti, "right(arg%d)" % fi)])
@@ -532,6 +533,56 @@ def rule_force(chk, w):
         chk.fail("FORCE", "sites", "expected the re-queuing calls of rewind_to_chain_state and queue_rescans, found %d" % n)
 
 
+def rule_hull(chk, w):
+    """replace_queue_entries loads, deletes and re-inserts the queue rows that touch its query range; rows it
+    did not load stay as they are, so the query range must cover every entry handed in or the new rows are
+    inserted beside overlapping old ones (the queue stops being a partition). Where a caller computes the
+    query range by combining the bounds of several ranges, it must be their HULL: starts combined with `min`,
+    ends with `max`."""
+    callers = set()
+    for f in w.fns.values():
+        root = w.fns.get(f.root) if f.is_closure() else f
+        if root is None or root.crate.name != "zcash_client_sqlite" or "::tests::" in root.p:
+            continue
+        if _calls(f.body, r"scanning::replace_queue_entries$"):
+            callers.add(root.id)
+    n = 0
+    for f in sorted(w.fns.values(), key=lambda f: f.p):
+        root = w.fns.get(f.root) if f.is_closure() else f
+        if root is None or root.id not in callers:
+            continue
+        b = f.body
+        du = None
+        for blk in b.blocks:
+            if blk.cleanup:
+                continue
+            for st in blk.stmts:
+                if not (st.kind == "=" and st.rv.kind == "agg" and st.rv.agg[0] == "adt" and
+                        st.rv.agg[1] == "core::ops::Range" and len(st.rv.ops) == 2):
+                    continue
+                du = du or defuse.DefUse(b)
+                for which, op, want in (("start", st.rv.ops[0], "min"), ("end", st.rv.ops[1], "max")):
+                    o = du.origin(op)
+                    if not (o[0] == "call" and re.search(r"(^core::cmp::|Ord>?::)(min|max)$", o[1]) and len(o[2]) == 2):
+                        continue
+                    txts = [defuse.show(a) for a in o[2]]
+                    if not all(re.search(r"\.%s\)?$" % which, x) for x in txts):
+                        continue
+                    n += 1
+                    got = o[1].rsplit("::", 1)[-1]
+                    name = root.p.rsplit("::", 1)[-1]
+                    if got == want:
+                        chk.ok("HULL", "%s: the query range's %s is the %s of the entries' %ss" % (name, which, want, which),
+                               sample=(n == 1))
+                    else:
+                        chk.fail("HULL", "%s/%s" % (name, which), "the query range handed to replace_queue_entries combines "
+                                 "the entries' %ss with `%s`: that is their intersection, not their hull, so rows "
+                                 "overlapping an entry are neither loaded nor replaced" % (which, got), st.span.loc())
+    if n < 4:
+        chk.fail("HULL", "sites", "expected the hull computations of update_chain_tip and queue_rescans (2 bounds each), "
+                 "found %d" % n)
+
+
 def main(tier):
     chk = Check("C15", "other", tier)
     chk.explanation = (
@@ -550,6 +601,7 @@ def main(tier):
     chk.rule("SCAN", "scan_complete marks exactly the scanned range", floor=3)
     chk.rule("SUGGEST", "everything above Scanned is suggested, highest priority first", floor=2)
     chk.rule("FORCE", "operations that exist to rescan force the replacement", floor=2)
+    chk.rule("HULL", "the range replace_queue_entries is asked to replace covers the entries handed in", floor=4)
     w = zf.World(extract.facts_dir("all"), ["zcash_client_backend", "zcash_client_sqlite"])
     rule_dom(chk, w)
     rule_ins(chk, w)
@@ -558,4 +610,5 @@ def main(tier):
     rule_scan(chk, w)
     rule_suggest(chk, w)
     rule_force(chk, w)
+    rule_hull(chk, w)
     chk.finish()
